@@ -98,12 +98,49 @@ fn run_one(sc: &Value) {
         }
     };
     let foff = (func_addr - fa.base) as usize;
-    fa.put_stub(foff, ORIG_ID);
+    // unusual but legitimate first instructions of a target (the property speaks about "the function",
+    // whatever its prologue looks like): CET landing pad, forwarding thunks, padding
+    let prologue = s(sc, "prologue");
+    let mut body_addr = 0u64;
+    match prologue.as_str() {
+        "endbr64" => {
+            let mut code = vec![0xF3, 0x0F, 0x1E, 0xFA, 0xB8];
+            code.extend_from_slice(&ORIG_ID.to_le_bytes());
+            code.push(0xC3);
+            fa.put_bytes(foff, &code);
+        }
+        "nop" => {
+            let mut code = vec![0x90, 0x90, 0x90, 0xB8];
+            code.extend_from_slice(&ORIG_ID.to_le_bytes());
+            code.push(0xC3);
+            fa.put_bytes(foff, &code);
+        }
+        "thunk_e9" | "thunk_eb" => {
+            // the named function only forwards to a body 48 bytes further on (never named itself)
+            if foff + 48 + 6 <= fa.len {
+                body_addr = func_addr + 48;
+                if prologue == "thunk_e9" {
+                    let rel: i32 = 48 - 5;
+                    let mut code = vec![0xE9];
+                    code.extend_from_slice(&rel.to_le_bytes());
+                    fa.put_bytes(foff, &code);
+                } else {
+                    fa.put_bytes(foff, &[0xEB, 46, 0x90, 0x90, 0x90, 0x90, 0x90]);
+                }
+                fa.put_stub(foff + 48, ORIG_ID);
+            } else {
+                fa.put_stub(foff, ORIG_ID);
+            }
+        }
+        _ => {
+            fa.put_stub(foff, ORIG_ID);
+        }
+    }
     let has_prev = foff >= 16;
     if has_prev {
         fa.put_stub(foff - 16, ORIG_ID + 1);
     }
-    let has_next = foff + 16 + 6 <= fa.len;
+    let has_next = foff + 16 + 6 <= fa.len && !prologue.starts_with("thunk");
     if has_next {
         fa.put_stub(foff + 16, ORIG_ID + 2);
     }
@@ -135,6 +172,12 @@ fn run_one(sc: &Value) {
     }
     watch::clear();
     watch::add_entry("f1", func_addr, 32.min((fa.base + fa.len as u64 - func_addr) as usize));
+    if body_addr != 0 {
+        watch::add_arena("body", body_addr, 16);
+    }
+    if has_prev {
+        watch::add_arena("prev", func_addr - 16, 16);
+    }
     let origb = unsafe { std::slice::from_raw_parts(func_addr as *const u8, 16) }.to_vec();
     let split = 4096 - (func_addr & 0xfff) as usize;
     emit(json!({"ev":"Target","f":"f1","orig":origb,"split":split,"rwpages":watch::writable_pages(func_addr),"addr":a8(func_addr)}));
@@ -210,8 +253,14 @@ fn run_one(sc: &Value) {
     if has_prev {
         emit(json!({"ev":"Neighbour","which":"prev","res":call_stub(func_addr - 16),"want":ORIG_ID + 1}));
     }
-    if has_next {
+    if has_next && body_addr == 0 {
         emit(json!({"ev":"Neighbour","which":"next","res":call_stub(func_addr + 16),"want":ORIG_ID + 2}));
+    }
+    if body_addr != 0 {
+        // the function the thunk forwards to was never named: its own bytes are untouched (watched region
+        // "body"); calling it directly while only the THUNK is faked must still run the body
+        let b = unsafe { std::slice::from_raw_parts(body_addr as *const u8, 6) }.to_vec();
+        emit(json!({"ev":"Neighbour","which":"thunk-body-bytes","res": if b[0] == 0xB8 { ORIG_ID } else { 0 },"want":ORIG_ID}));
     }
     in_lib(|| drop(inj));
     watch::diff_all("drop-end");
